@@ -215,6 +215,13 @@ def shape_options(n):
         if n % k == 0 and n // k >= 1:
             opts.append([k, n // k])
     opts.append([n, 1])
+    # three-dimensional arrays (a grid with a third axis, a stack of survey lines): everything that takes "arrays of any shape" flattens them
+    if n % 4 == 0:
+        opts.append([2, 2, n // 4])
+    if n % 6 == 0:
+        opts.append([n // 6, 3, 2])
+    if n % 3 == 0 and n > 3:
+        opts.append([1, 3, n // 3])
     return opts
 
 
